@@ -247,7 +247,7 @@ async fn run_async(c: &Case) -> Verdict {
             };
             reply.push(DHTNode { peer_id: pid, address: addr_s, distance: dist, reliability: 1.0, cached_dht_key: None });
         }
-        add_stub(&hub, sid_bytes, addr, StubScript { reply_nodes: reply, ack_put: true, value: None, wrong_id: false });
+        add_stub(&hub, sid_bytes, addr, StubScript { reply_nodes: reply, ack_put: true, value: None, wrong_id: false, raw_result: None });
         let _ = w.nodes[at].th.connect_peer(&addr.to_string()).await;
         liar_ids.push(sid);
     }
